@@ -281,10 +281,56 @@ func opsByName(names []string) ([]asmOp, error) {
 			}
 		}
 		if !found {
+			if o, ok := asmDynamicOp(n); ok {
+				out = append(out, o)
+				continue
+			}
 			return nil, fmt.Errorf("unknown emitter op %q", n)
 		}
 	}
 	return out, nil
+}
+
+// asmDynamicOp: calls outside the fixed alphabet that single checks add -- REP/SEP and AssumeREP/AssumeSEP
+// with any mask (C16 flag sweep), SetBase in the middle of a sequence (C19).
+func asmDynamicOp(name string) (asmOp, bool) {
+	var v uint32
+	switch {
+	case scan(name, "SEP(#$%02x)", &v):
+		return asmOp{name: name, kind: itInstr, real: func(e *asm.Emitter) { e.SEP(asm.Flags(v)) }, model: func(m *asmModel) bool {
+			if !m.fits(2) {
+				return true
+			}
+			m.p |= byte(v)
+			m.emit(itInstr, []byte{0xE2, byte(v)}, -1)
+			return false
+		}}, true
+	case scan(name, "REP(#$%02x)", &v):
+		return asmOp{name: name, kind: itInstr, real: func(e *asm.Emitter) { e.REP(asm.Flags(v)) }, model: func(m *asmModel) bool {
+			if !m.fits(2) {
+				return true
+			}
+			m.p &^= byte(v)
+			m.emit(itInstr, []byte{0xC2, byte(v)}, -1)
+			return false
+		}}, true
+	case scan(name, "AssumeSEP($%02x)", &v):
+		return asmOp{name: name, kind: itComment, real: func(e *asm.Emitter) { e.AssumeSEP(asm.Flags(v)) }, model: func(m *asmModel) bool { m.p |= byte(v); return false }}, true
+	case scan(name, "AssumeREP($%02x)", &v):
+		return asmOp{name: name, kind: itComment, real: func(e *asm.Emitter) { e.AssumeREP(asm.Flags(v)) }, model: func(m *asmModel) bool { m.p &^= byte(v); return false }}, true
+	case scan(name, "SetBase($%06x)", &v):
+		return asmOp{name: name, kind: itComment, real: func(e *asm.Emitter) { e.SetBase(v) }, model: func(m *asmModel) bool { m.setBase(v); return false }}, true
+	}
+	return asmOp{}, false
+}
+
+func scan(s, format string, v *uint32) bool {
+	var x uint32
+	if n, err := fmt.Sscanf(s, format, &x); err != nil || n != 1 || fmt.Sprintf(format, x) != s {
+		return false
+	}
+	*v = x
+	return true
 }
 
 func newRealEmitter(v asmVariant, capacity int) *asm.Emitter {
